@@ -200,6 +200,72 @@ func TestVerifPurity(t *testing.T) {
 			}
 		}
 	}
+	// 6. objects built as struct literals (exported metric fields set, unexported state zero) and zero objects: queries
+	// repeat and leave the object as it is
+	{
+		src := NewEnvironmental()
+		if _, err := src.Decode(vrVectors[2]); err == nil {
+			mkLit := func(from interface{}) reflect.Value {
+				v := reflect.ValueOf(from).Elem()
+				n := reflect.New(v.Type())
+				for i := 0; i < v.NumField(); i++ {
+					if v.Type().Field(i).PkgPath == "" && v.Field(i).Kind() != reflect.Ptr && v.Field(i).Kind() != reflect.Map {
+						n.Elem().Field(i).Set(v.Field(i))
+					}
+				}
+				return n
+			}
+			litB := mkLit(src.Base)
+			litT := mkLit(src.Temporal)
+			litT.Elem().FieldByName("Base").Set(litB)
+			litE := mkLit(src)
+			litE.Elem().FieldByName("Temporal").Set(litT)
+			safe := func(o vrObj) (out string) {
+				defer func() {
+					if r := recover(); r != nil {
+						out = fmt.Sprint("panic: ", r)
+					}
+				}()
+				return vrQueries(o, func() string { return "" })
+			}
+			for _, l := range []struct {
+				name string
+				v    reflect.Value
+			}{{"Base", litB}, {"Temporal", litT}, {"Environmental", litE}} {
+				o, ok := l.v.Interface().(vrObj)
+				if !ok {
+					continue
+				}
+				d0 := vrDump(l.v, 0)
+				r1 := safe(o)
+				d1 := vrDump(l.v, 0)
+				r2 := safe(o)
+				if d0 != d1 {
+					fmt.Printf("PURITY-HIT %s built as a struct literal (exported fields of %q): queries changed the object\n  before: %s\n  after:  %s\n", l.name, vrVectors[2], d0, d1)
+					return
+				}
+				if r1 != r2 {
+					fmt.Printf("PURITY-HIT %s built as a struct literal (exported fields of %q): repeated queries differ\n  first:  %s\n  second: %s\n", l.name, vrVectors[2], r1, r2)
+					return
+				}
+			}
+			// zero objects: accessors only
+			for _, z := range []struct {
+				name, method string
+				v            reflect.Value
+			}{{"zero Temporal", "BaseMetrics", reflect.New(reflect.TypeOf(*src.Temporal))}, {"zero Environmental", "TemporalMetrics", reflect.New(reflect.TypeOf(*src))}} {
+				d0 := vrDump(z.v, 0)
+				func() {
+					defer func() { recover() }()
+					z.v.MethodByName(z.method).Call(nil)
+				}()
+				if d1 := vrDump(z.v, 0); d0 != d1 {
+					fmt.Printf("PURITY-HIT %s: %s() changed the object\n  before: %s\n  after:  %s\n", z.name, z.method, d0, d1)
+					return
+				}
+			}
+		}
+	}
 	fmt.Println("PURITY-NONE all probes agree")
 }
 `
